@@ -170,6 +170,18 @@ Proof. exact span_document_html. Qed.
 Theorem C11_lines_of_text : forall ls, ls <> [] -> forallb eol_free ls = true -> texts_of (lf_lines ls) = ls.
 Proof. exact texts_of_lf_lines. Qed.
 
+(* KNOWN FINDING F15 (the full statement "in every context" is false of the faithful model and of the code): a span
+   that opens inside bracketed text right after an unmatched backtick run is not seen by the link rule's look-ahead,
+   which consults the text node pushed before the look-ahead began.  Kernel-checked witness; the same input replayed on
+   the implementation gives the same HTML (known_findings.json F15).  The control (a blank between run and bracket)
+   reproduces the payload. *)
+Example C11_span_in_every_context_refuted :
+  html_of "C" "``[a `](u) b`" = bs "<p>``<a href=""u"">a `</a> b`</p>
+" /\
+  html_of "C" "`` [a `](u) b`" = bs "<p>`` [a <code>](u) b</code></p>
+".
+Proof. vm_compute. split; reflexivity. Qed.
+
 (* non-vacuity of the search theorems: the hypotheses hold for a concrete state / document with markup in the payload *)
 Example C11_fence_document_nonvacuous :
   let texts := [bs "*a* ``` &amp; \*"; bs ""; bs "  ~~~~"] in
